@@ -222,6 +222,8 @@ func (c *FnCtx) execInstr(b *ssa.BasicBlock, in ssa.Instruction, st *State, reac
 	case *ssa.MakeMap:
 		m := c.allocRef(st)
 		mt := x.Type().Underlying().(*types.Map)
+		u.declareFun("mtype", []Sort{SInt}, SInt)
+		c.define(eq(mk(SInt, "mtype", m), u.typeID(mt)))
 		hk, hs, _, _ := c.g.mapHeapKeys(mt)
 		h := c.heap(st, hk, hs)
 		st.heaps[hk] = store(h, m, Term{fmt.Sprintf("((as const %s) false)", arrayElemSort(hs)), arrayElemSort(hs)})
@@ -271,10 +273,11 @@ func (c *FnCtx) execInstr(b *ssa.BasicBlock, in ssa.Instruction, st *State, reac
 		c.havocClosureWrites(x.Common(), st)
 		return true
 	case *ssa.Send:
-		c.g.note("channel send in %s modelled as a no-op", c.spec.Name)
+		c.g.note("channel send: the ghost flag $Sent is set, the channel itself is not modelled")
+		c.setGhost(st, "Sent", tTrue)
 		return true
 	case *ssa.Select:
-		c.execSelect(x)
+		c.execSelect(x, st)
 		return true
 	case *ssa.Jump:
 		c.setEdge(b, b.Succs[0], *reach, st)
@@ -669,8 +672,34 @@ type mapIter struct {
 }
 
 func (c *FnCtx) execRange(x *ssa.Range, st *State) {
-	// iterator identity only; per-iteration behaviour is in execNext
+	// iterator identity; per-iteration behaviour is in execNext
 	c.regs[x] = Val{kind: vTerm, t: c.fresh("iter", SInt)}
+	// ghost seen-set of a map iteration: no key has been produced yet
+	if mt, ok := x.X.Type().Underlying().(*types.Map); ok {
+		ks := c.g.u.sortOf(mt.Key())
+		key := seenKey(x)
+		c.g.heapSorts[key] = arraySort(ks, SBool)
+		st.heaps[key] = Term{fmt.Sprintf("((as const %s) false)", arraySort(ks, SBool)), arraySort(ks, SBool)}
+	}
+}
+
+// seenKey names the ghost seen-set of a map range instruction (by its ordinal among the function's
+// Range instructions over maps, so that specs can refer to it as seen(n, key)).
+func seenKey(x *ssa.Range) string {
+	n := 0
+	for _, b := range x.Parent().Blocks {
+		for _, in := range b.Instrs {
+			if r, ok := in.(*ssa.Range); ok {
+				if _, isMap := r.X.Type().Underlying().(*types.Map); isMap {
+					n++
+					if r == x {
+						return fmt.Sprintf("SEEN_%d", n)
+					}
+				}
+			}
+		}
+	}
+	return "SEEN_0"
 }
 
 func (c *FnCtx) execNext(x *ssa.Next, st *State, reach *Term) {
@@ -692,17 +721,70 @@ func (c *FnCtx) execNext(x *ssa.Next, st *State, reach *Term) {
 	has := sel(sel(c.heap(st, hk, hs), m), k)
 	val := sel(sel(c.heap(st, vk, vs), m), k)
 	// a yielded key is present in the map at this moment (Go guarantees deleted keys are not produced)
-	c.define(implies(okT, and(not(eq(m, tZero)), has)))
+	// and has not been produced before; when the iteration ends every present key has been produced
+	sk := seenKey(rng)
+	ks := u.sortOf(mt.Key())
+	seen, okSeen := st.heaps[sk]
+	if !okSeen {
+		seen = c.heap(st, sk, arraySort(ks, SBool))
+	}
+	c.define(implies(okT, and(not(eq(m, tZero)), has, not(sel(seen, k)))))
+	hasQ := sel(sel(c.heap(st, hk, hs), m), Term{"kq!", ks})
+	c.define(implies(not(okT), Term{fmt.Sprintf("(forall ((kq! %s)) (! (=> (and (not (= %s 0)) %s) (select %s kq!)) :pattern ((select %s kq!)) :pattern (%s)))", ks, m.S, hasQ.S, seen.S, seen.S, hasQ.S), SBool}))
+	st.heaps[sk] = ite(okT, store(seen, k, tTrue), seen)
 	for _, f := range u.rangeFacts(val, mt.Elem(), 1) {
 		c.define(f)
 	}
-	c.g.note("map iteration in %s: each step yields an arbitrary present key (no seen-set; completeness of iteration not modelled)", c.spec.Name)
+	c.g.note("map iteration: every step yields a present key not produced before; at the end all present keys were produced (entries inserted during the iteration may or may not be produced)")
 	c.regs[x] = Val{kind: vTuple, tuple: []Val{{kind: vTerm, t: okT}, {kind: vTerm, t: k}, {kind: vTerm, t: val}}}
 }
 
-func (c *FnCtx) execSelect(x *ssa.Select) {
+// setGhost assigns a ghost boolean ($Name).
+func (c *FnCtx) setGhost(st *State, name string, v Term) {
+	k := "GH_" + name
+	c.g.heapSorts[k] = SBool
+	c.heap(c.entry, k, SBool)
+	st.heaps[k] = v
+}
+
+func (c *FnCtx) ghost(st *State, name string) Term {
+	k := "GH_" + name
+	c.g.heapSorts[k] = SBool
+	return c.heap(st, k, SBool)
+}
+
+// Context cancellation is a monotone ghost set CTXDONE of context references: it can only grow, and it
+// may grow at every observation point (Err call, select).
+const ctxDoneKey = "CTXDONE"
+
+func (c *FnCtx) ctxDoneSet(st *State) Term {
+	c.g.heapSorts[ctxDoneKey] = arraySort(SInt, SBool)
+	return c.heap(st, ctxDoneKey, arraySort(SInt, SBool))
+}
+
+func (c *FnCtx) ctxAdvance(st *State) Term {
+	old := c.ctxDoneSet(st)
+	nw := c.fresh("ctxdone", arraySort(SInt, SBool))
+	c.define(Term{fmt.Sprintf("(forall ((x! Int)) (! (=> (select %s x!) (select %s x!)) :pattern ((select %s x!))))", old.S, nw.S, old.S), SBool})
+	st.heaps[ctxDoneKey] = nw
+	return nw
+}
+
+// doneCallCtx: if v is the result of ctx.Done() on a context.Context, return the context value.
+func doneCallCtx(v ssa.Value) ssa.Value {
+	call, ok := v.(*ssa.Call)
+	if !ok || !call.Call.IsInvoke() || call.Call.Method.Name() != "Done" {
+		return nil
+	}
+	if n, ok := types.Unalias(call.Call.Value.Type()).(*types.Named); ok && n.Obj().Pkg() != nil && n.Obj().Pkg().Path() == "context" && n.Obj().Name() == "Context" {
+		return call.Call.Value
+	}
+	return nil
+}
+
+func (c *FnCtx) execSelect(x *ssa.Select, st *State) {
 	// nondeterministic choice; received values arbitrary
-	c.g.note("select in %s modelled as a nondeterministic choice with arbitrary received values", c.spec.Name)
+	c.g.note("select modelled as a nondeterministic choice with arbitrary received values; a chosen send sets $Sent, a chosen receive from ctx.Done() means that context is done")
 	n := len(x.States)
 	idx := c.fresh("selidx", SInt)
 	lo := tZero
@@ -710,6 +792,17 @@ func (c *FnCtx) execSelect(x *ssa.Select) {
 		lo = intLit(-1)
 	}
 	c.define(and(le(lo, idx), lt(idx, intLit(int64(n)))))
+	done := c.ctxAdvance(st)
+	sent := c.ghost(st, "Sent")
+	for i, s := range x.States {
+		chosen := eq(idx, intLit(int64(i)))
+		if s.Dir == types.SendOnly {
+			sent = ite(chosen, tTrue, sent)
+		} else if cv := doneCallCtx(s.Chan); cv != nil {
+			c.define(implies(chosen, sel(done, c.term(cv))))
+		}
+	}
+	c.setGhost(st, "Sent", sent)
 	tup := []Val{{kind: vTerm, t: idx}, {kind: vTerm, t: c.fresh("selok", SBool)}}
 	tt := x.Type().(*types.Tuple)
 	for i := 2; i < tt.Len(); i++ {
